@@ -185,14 +185,17 @@ func runC08(c *Ctx) {
 		repo = "/repo"
 	}
 	src, err := parseWordlistSources(filepath.Join(repo, "internal", "wordlist"))
+	var srcSkipped []string
 	if err != nil {
-		c.Violate("source:parse", "internal/wordlist cannot be parsed: "+err.Error(), map[string]interface{}{"kind": "source"})
+		c.SetExtra("source_text_check", "skipped: internal/wordlist not present or not parseable: "+err.Error())
 	} else {
 		for l := 0; l < ref.NLang; l++ {
 			got, ok := src[ref.LangNames[l]]
 			c.Eval(1)
 			if !ok {
-				c.Violate(fmt.Sprintf("source:%d", l), fmt.Sprintf("no (unique) declaration of wordlist.%s found in internal/wordlist", ref.LangNames[l]), map[string]interface{}{"kind": "source", "lang": l})
+				// the list is not kept as a string-literal slice in the source (embedded file, generated
+				// at init, ...): nothing to compare textually; what the API emits is checked above
+				srcSkipped = append(srcSkipped, ref.LangNames[l])
 				continue
 			}
 			if len(got) != 2048 {
@@ -206,6 +209,9 @@ func runC08(c *Ctx) {
 				}
 			}
 		}
+	}
+	if len(srcSkipped) > 0 {
+		c.SetExtra("source_text_check_skipped_for", srcSkipped)
 	}
 	c.AddScope("source text of internal/wordlist/*.go vs golden", 10, true, "")
 	c.mu.Lock()
